@@ -180,7 +180,8 @@ pub fn as_position(index: usize, text: &str) -> Position {
             line += 1;
             character = 0;
         } else {
-            character += 1;
+            // LSP columns count UTF-16 code units
+            character += c.len_utf16() as u32;
         }
     }
     Position { line, character }
@@ -218,7 +219,8 @@ pub fn get_insertion_index(position: &Position, text: &str) -> usize {
             line += 1;
             character = 0;
         } else {
-            character += 1;
+            // LSP columns count UTF-16 code units
+            character += c.len_utf16() as u32;
         }
     }
     text.len()
